@@ -558,10 +558,11 @@ impl<T: CanonicalDeserialize> CanonicalDeserialize for Vec<T> {
         compress: Compress,
         validate: Validate,
     ) -> Result<Self, SerializationError> {
-        let len = u64::deserialize_with_mode(&mut reader, compress, validate)?
+        let len: usize = u64::deserialize_with_mode(&mut reader, compress, validate)?
             .try_into()
             .map_err(|_| SerializationError::NotEnoughSpace)?;
-        let mut values = Self::with_capacity(len);
+        // `len` comes from the (untrusted) input: do not pre-allocate more than a small bound from it.
+        let mut values = Self::with_capacity(len.min(MAX_PREALLOCATION));
         for _ in 0..len {
             values.push(T::deserialize_with_mode(
                 &mut reader,
@@ -576,6 +577,10 @@ impl<T: CanonicalDeserialize> CanonicalDeserialize for Vec<T> {
         Ok(values)
     }
 }
+
+/// Upper bound on the number of elements pre-allocated from a length prefix read from the input;
+/// longer sequences grow on demand while their elements are actually being read.
+const MAX_PREALLOCATION: usize = 1 << 10;
 
 // Helper function. Serializes any sequential data type to the format
 //     n as u64 || data[0].serialize() || ... || data[n].serialize()
@@ -655,10 +660,11 @@ impl<T: CanonicalDeserialize> CanonicalDeserialize for VecDeque<T> {
         compress: Compress,
         validate: Validate,
     ) -> Result<Self, SerializationError> {
-        let len = u64::deserialize_with_mode(&mut reader, compress, validate)?
+        let len: usize = u64::deserialize_with_mode(&mut reader, compress, validate)?
             .try_into()
             .map_err(|_| SerializationError::NotEnoughSpace)?;
-        let mut values = Self::with_capacity(len);
+        // `len` comes from the (untrusted) input: do not pre-allocate more than a small bound from it.
+        let mut values = Self::with_capacity(len.min(MAX_PREALLOCATION));
         for _ in 0..len {
             values.push_back(T::deserialize_with_mode(
                 &mut reader,
